@@ -21,12 +21,12 @@ def run_walk(sess):
     quick = sess.tier == 'quick'
     M = 4 if quick else 5
     sess.bounds[fam] = {'nodes': M, 'roots': 1, 'zip members': '0..2', 'corrupt archives': 'symbolic', 'member open failures': 'symbolic',
-                        'depth window': 'mindepth symbolic 0..2'}
-    for archives in (True, False):
+                        'depth window': 'mindepth symbolic 0..2', 'traversal': 'bfs (with and without the option) and dfs'}
+    for archives, dfs in ((True, False), (False, False), (True, True)):
         ex = sess.executor(W.models(), unwind=3 * M + 6, maxsteps=400000)
         viol = {}; st = {'paths': 0}
 
-        def runp(ctx, archives=archives):
+        def runp(ctx, archives=archives, dfs=dfs):
             fs = W.FS(ctx, M, roots=1, kinds=(W.FILE, W.DIR), archives=True)
             ctx.ghost['fs'] = fs
             ctx.ghost['match_all'] = BoolVal(True)
@@ -34,14 +34,14 @@ def run_walk(sess):
                 ctx.assume(Or(Not(fs.is_zip[i]), fs.kind[i] == BitVecVal(W.FILE, 8)))
             ctx.ghost['member_fault'] = {(i, j): ctx.fresh_bool('mfault_%d_%d' % (i, j)) for i in range(1, M) for j in range(fs.max_members + 1)}
             mind = ctx.fresh_bv('mindepth', 32); ctx.assume(ULE(mind, BitVecVal(2, 32)))
-            roots = [W.mk_root(prog, 'R0', mind, BitVecVal(0, 32), False, archives=BoolVal(archives))]
+            roots = [W.mk_root(prog, 'R0', mind, BitVecVal(0, 32), dfs, archives=BoolVal(archives))]
             q = W.mk_query(prog, roots, BitVecVal(0, 32), ordered=False)
             status = W.run_exec_search(ctx, prog, q)
             return fs, mind, status
 
-        def on_path(ctx, out, archives=archives):
+        def on_path(ctx, out, archives=archives, dfs=dfs):
             st['paths'] += 1
-            name = '%s archives=%s' % (fam, archives)
+            name = '%s archives=%s%s' % (fam, archives, ' dfs' if dfs else '')
             if out[0] != 'ret':
                 if out[0] == 'panic':
                     if not viol.get('panic'):
@@ -81,10 +81,10 @@ def run_walk(sess):
                 return
             viol[role] = True
             sess.violated(name, role, 'mindepth=%s: reported %r' % (m.eval(mind, model_completion=True), trace), {'trace': [list(t) for t in trace]},
-                          cli_replay(fs, m, m.eval(mind, model_completion=True).as_long(), mf, archives), fam)
+                          cli_replay(fs, m, m.eval(mind, model_completion=True).as_long(), mf, archives, dfs), fam)
 
         n, complete = ex.explore(runp, on_path, time_budget=240 if quick else 1500)
-        name = '%s archives=%s' % (fam, archives)
+        name = '%s archives=%s%s' % (fam, archives, ' dfs' if dfs else '')
         if not complete:
             sess.inconclusive(name, 'time budget exceeded after %d paths' % n, fam)
         elif not viol and not st.get('bad'):
@@ -105,7 +105,7 @@ def make_zip_with_bad(n, bad):
     return out + cd + struct.pack('<IHHHHIIH', 0x06054b50, 0, 0, n, n, len(cd), off, 0)
 
 
-def cli_replay(fs, m, mind, mf, archives):
+def cli_replay(fs, m, mind, mf, archives, dfs=False):
     def rep():
         exe = common.native_binary()
         tree, path, par, kind, usable = tree_from_model(fs, m)
@@ -134,7 +134,7 @@ def cli_replay(fs, m, mind, mf, archives):
                 old = path[i]; path[i] = path[par[i]] + '/' + old.rsplit('/', 1)[1]
                 tree[path[i]] = tree.pop(old)
                 want = [w.replace(old, path[i]) for w in want]
-        argv = ['path', 'from', 'R0'] + (['archives'] if archives else []) + (['mindepth', str(mind)] if mind else [])
+        argv = ['path', 'from', 'R0'] + (['archives'] if archives else []) + (['mindepth', str(mind)] if mind else []) + (['dfs'] if dfs else [])
         r = common.run_cli(exe, argv, tree)
         got = r['stdout'].split('\n')[:-1]
         bad_ = sorted(got) != sorted(want) or r['status'] != 0
@@ -155,7 +155,7 @@ def main(sess):
         run_walk(sess)
     if not only or 'limit' in only:
         from drivers import c06_walker
-        c06_walker.run(sess, configs=[(4, 1, False)] if sess.tier == 'quick' else [(5, 1, False), (5, 1, True)], fam='limit')
+        c06_walker.run(sess, configs=[(4, 1, False)] if sess.tier == 'quick' else [(4, 1, False, True), (4, 1, True, True), (5, 1, False, False)], fam='limit')
     try:
         from drivers import c19_fileinfo
         if not only or 'fileinfo' in only:
